@@ -1,14 +1,145 @@
 package main
 
+import (
+	"fmt"
+	"strings"
+	"sync"
+	"sync/atomic"
+	"time"
+
+	"github.com/lab5e/lospan/pkg/server"
+	"github.com/lab5e/lospan/pkg/storage"
+)
+
+// arrival is a real goroutine parked at a verif gate.
+type arrival struct {
+	gid int
+	op  string
+	key string
+	rel chan error
+}
+
 // gateCtl parks, releases, fails or abandons the real handler goroutines at the verif gates
-// (storage operations, output-buffer operations, encoder hand-over). Filled in by the
-// controlled engines; nil in the sequential engine (gates are pass-through there).
+// (entry of storage operations, entry of output-buffer operations, the encoder's hand-over).
+// With every goroutine parked and one released at a time no two storage operations overlap, so
+// an execution of the real pipeline is exactly a sequence of thread steps of the model.
 type gateCtl struct {
+	mu      sync.Mutex
+	enabled bool
+	self    int // the harness goroutine: its own storage reads pass through
+	pending []*arrival
+	dead    map[int]bool
+	wake    chan struct{}
 	onStage func(event, key string)
 }
 
+func newGateCtl() *gateCtl {
+	return &gateCtl{dead: map[int]bool{}, wake: make(chan struct{}, 1), self: goid()}
+}
+
+func (g *gateCtl) signal() {
+	select {
+	case g.wake <- struct{}{}:
+	default:
+	}
+}
+
+func (g *gateCtl) enter(op, key string) error {
+	if strings.HasPrefix(op, "AllocateKeys") {
+		return nil
+	}
+	gid := goid()
+	g.mu.Lock()
+	if !g.enabled || gid == g.self {
+		g.mu.Unlock()
+		return nil
+	}
+	if g.dead[gid] {
+		g.mu.Unlock()
+		select {} // a goroutine of a crashed server never runs again
+	}
+	a := &arrival{gid: gid, op: op, key: key, rel: make(chan error, 1)}
+	g.pending = append(g.pending, a)
+	g.mu.Unlock()
+	g.signal()
+	return <-a.rel
+}
+
 func (g *gateCtl) stage(event, key string) {
+	if event == "encoder.handoff" {
+		g.enter("encoder.handoff", key)
+	}
 	if g.onStage != nil {
 		g.onStage(event, key)
+	}
+	g.signal()
+}
+
+func (g *gateCtl) install() {
+	storage.VerifGate = g.enter
+	server.VerifGate = func(op, key string) { g.enter(op, key) }
+}
+
+func (g *gateCtl) uninstall() {
+	storage.VerifGate = nil
+	server.VerifGate = nil
+}
+
+func (g *gateCtl) parked() []*arrival {
+	g.mu.Lock()
+	defer g.mu.Unlock()
+	return append([]*arrival{}, g.pending...)
+}
+
+// release lets the goroutine continue; err != nil makes the gated operation fail with it.
+func (g *gateCtl) release(a *arrival, err error) {
+	g.mu.Lock()
+	for i, x := range g.pending {
+		if x == a {
+			g.pending = append(g.pending[:i:i], g.pending[i+1:]...)
+			break
+		}
+	}
+	g.mu.Unlock()
+	a.rel <- err
+}
+
+// abandonAll is a crash: every parked goroutine stays parked for ever, and any goroutine of the
+// old server that reaches a gate later is parked too.
+func (g *gateCtl) abandonAll() {
+	g.mu.Lock()
+	for _, a := range g.pending {
+		g.dead[a.gid] = true
+	}
+	g.pending = nil
+	g.mu.Unlock()
+}
+
+// waitStable returns when every unit of work in flight is parked at a gate (or nothing is in flight).
+func (r *pipeRig) waitStable(timeout time.Duration) error {
+	g := r.gate
+	t := time.NewTimer(timeout)
+	defer t.Stop()
+	for {
+		g.mu.Lock()
+		p := int64(len(g.pending))
+		g.mu.Unlock()
+		if atomic.LoadInt64(&r.inflight) == p {
+			select {
+			case pk := <-r.fwd.in:
+				r.emitted = append(r.emitted, pk)
+				continue
+			default:
+				return nil
+			}
+		}
+		select {
+		case pk := <-r.fwd.in:
+			r.emitted = append(r.emitted, pk)
+		case <-g.wake:
+		case <-r.zero:
+		case <-t.C:
+			return fmt.Errorf("pipeline neither parked nor quiescent after %v (in flight %d, parked %d)", timeout, atomic.LoadInt64(&r.inflight), p)
+		}
 	}
 }
